@@ -1,9 +1,11 @@
 import Dcg.Proofs.Imports
 import Dcg.Proofs.ImportLedger
 import Dcg.Proofs.Cover
+import Dcg.Proofs.CoverOp
 import Dcg.Proofs.Types
 import Dcg.Proofs.ClassTie
 import Dcg.Model.FieldText
+import Dcg.Proofs.FieldStr
 /-
 C02 — emitted modules execute: every name is bound before it is needed.
 Only property theorems live here; helper lemmas are in Dcg/Proofs/Imports.lean (and
@@ -170,6 +172,72 @@ theorem imports_cover_hint_typing (o : Opts) (ho : o.unionOp = false) (t : DT) (
     ∀ n ∈ namesOf (hintE o t).1, n ∈ typingNames → n ∈ impNames (allImports o true t) :=
   ⟨by rw [(Dcg.Proofs.Types.typeHint_typing o ho t hw).1],
    imports_cover_hint_partial o t hc (Dcg.Proofs.Types.flagsAgree_typing o ho t hw)⟩
+
+/-- THE `|` SPELLING (`use_union_operator = True`), names plain (`wfTree`): the flag hypothesis is
+discharged by `typeHint_operator` (C13, `re.split` at every `|`): the text `type_hint` writes is the
+printed form of the structural rendering, the `is_optional` flag it leaves at every node is the
+structural one (`flagsAgree_operator`, by induction on the tree), so every typing name the text
+writes is among `DataType.all_imports`. -/
+theorem imports_cover_hint_operator (o : Opts) (ho : o.unionOp = true) (t : DT) (hw : wfTree t = true)
+    (hc : coverOK o t = true) :
+    (typeHint o t).1 = Dcg.Sem.Typing.print (hintE o t).1 ∧
+    ∀ n ∈ namesOf (hintE o t).1, n ∈ typingNames → n ∈ impNames (allImports o true t) :=
+  ⟨by rw [(Dcg.Proofs.HintOp.typeHint_operator o ho t hw).1],
+   imports_cover_hint_partial o t hc (Dcg.Proofs.CoverOp.flagsAgree_operator o ho t hw)⟩
+
+/-- EVERY option vector (both union spellings x the four container spellings): for a tree with
+plain names the flags agree — `flagsAgree` is no longer a hypothesis anywhere. -/
+theorem flags_agree_all_spellings (o : Opts) (t : DT) (hw : wfTree t = true) : flagsAgree o t = true := by
+  cases ho : o.unionOp with
+  | false => exact Dcg.Proofs.Types.flagsAgree_typing o ho t hw
+  | true => exact Dcg.Proofs.CoverOp.flagsAgree_operator o ho t hw
+
+/-- non-vacuity (operator): `Dict[str, List[int | Literal['a'] | None]] | None`, the four container
+spellings — the side conditions hold and the flag left at the inner union is the structural one -/
+example : ∀ s g : Bool,
+    let o : Opts := { unionOp := true, stdColl := s, genericCont := g }
+    let t : DT := .mk { isOptional := true, isDict := true } (some (.mk { ty := sStr } none []))
+      [.mk { isList := true } none [.mk {} none [.mk { ty := ['i', 'n', 't'], isOptional := true } none [],
+         .mk { literals := [['\'', 'a', '\'']] } none []]]]
+    wfTree t = true ∧ coverOK o t = true ∧ flagAfter o t = true ∧
+    Dcg.Sem.Typing.sLiteral ∈ namesOf (hintE o t).1 ∧ IMPORT_LITERAL ∈ allImports o true t := by
+  decide
+
+/-- `use_union_operator = True`, NOTHING NAMED `Optional` / `Union` IS USED AND NONE IS EMITTED: for a
+tree with plain names whose input names are not typing names (`coverOK`) and no node of which
+carries an own `import_` named so (`ouFree`): (1) the rendered hint writes neither the name
+`Optional` nor `Union`, (2) `DataType.all_imports` yields no import of that name, whatever the
+flags, (3) neither does the field level (`DataModelFieldBase.imports`: `IMPORT_OPTIONAL` is appended
+only `and not use_union_operator`; nullable / not required / `type_has_null` do not matter). Nothing
+the `X | None` text needs is missing: (1) follows from `imports_cover_hint_operator` and (2). -/
+theorem operator_no_optional_union (o : Opts) (ho : o.unionOp = true) (t : DT) (hw : wfTree t = true)
+    (hc : coverOK o t = true) (hf : Dcg.Proofs.CoverOp.ouFree t = true) (fb : FieldBits) :
+    (∀ n ∈ namesOf (hintE o t).1, Dcg.Proofs.CoverOp.ouName n = false) ∧
+    (∀ i ∈ allImports o true t, Dcg.Proofs.CoverOp.ouName i.name = false) ∧
+    (∀ i ∈ fieldImports o fb t, Dcg.Proofs.CoverOp.ouName i.name = false) := by
+  have h2 := Dcg.Proofs.CoverOp.operator_imports_no_typing_union (flagAfter o) o ho t hf true
+  refine ⟨?_, h2, Dcg.Proofs.CoverOp.fieldImports_operator_no_typing_union o ho fb t hf⟩
+  intro n hn
+  cases hou : Dcg.Proofs.CoverOp.ouName n with
+  | false => rfl
+  | true =>
+    have hty : n ∈ typingNames := by
+      simp only [Dcg.Proofs.CoverOp.ouName, Bool.or_eq_true, beq_iff_eq] at hou
+      rcases hou with rfl | rfl <;> decide
+    have := (imports_cover_hint_operator o ho t hw hc).2 n hn hty
+    simp only [impNames, List.mem_map] at this
+    obtain ⟨i, hi, rfl⟩ := this
+    rw [h2 i hi] at hou; cases hou
+
+/-- non-vacuity: an optional union inside a list of an optional field — `List[int | str | None] | None`,
+not required: no `Optional`, no `Union` among the field's imports; without the operator both are -/
+example :
+    let t : DT := .mk { isList := true, isOptional := true } none [.mk { isOptional := true } none
+      [.mk { ty := ['i', 'n', 't'] } none [], .mk { ty := sStr } none []]]
+    wfTree t = true ∧ coverOK { unionOp := true } t = true ∧ Dcg.Proofs.CoverOp.ouFree t = true ∧
+    impNames (fieldImports { unionOp := true } {} t) = [sList] ∧
+    IMPORT_OPTIONAL ∈ fieldImports {} {} t ∧ IMPORT_UNION ∈ fieldImports {} {} t := by
+  decide
 
 /-- non-vacuity: `Optional[Dict[str, List[Union[int, Literal['a']]]]]`, all eight spellings -/
 example : ∀ o : Opts,
@@ -390,6 +458,103 @@ theorem field_imports_cover (v : Dcg.Model.FieldText.V) :
     ∀ n ∈ Dcg.Model.FieldText.memberUses v, n ∈ Dcg.Model.FieldText.imports v := by
   obtain ⟨a, e, f, u, k⟩ := v
   cases a <;> cases e <;> cases f <;> cases u <;> cases k <;> decide
+
+/-! ### `DataModelField.__str__` of the five field classes: the names its text reads are bound
+
+`Model.FieldStr` computes, from an abstract field state (required, nullable, default kind, is any
+keyword argument written, `use_annotated`, `use_default_kwarg`, what `default_factory` is, …), the
+shape of `str(field)` and the names it reads, `.field` / `.annotated`, the library part of `.imports`
+and the member branch of the class template. The three facts `Model.FieldText` used to read off the
+real text are now computed (`Pyd.toV`). Campaign `field/model imports vs rendered text` compares
+every function with the real field objects of all five kinds. -/
+
+open Dcg.Model.FieldStr Dcg.Proofs.FieldStr in
+/-- pydantic v1-style and v2, EVERY field state: every name the class template writes for the member
+besides its type hint — `Field`, `Annotated`, and what a `default_factory=` argument names — is
+among the library imports of the same field (`IMPORT_FIELD`, `IMPORT_ANNOTATED`) or is the factory
+itself (data: the text of `extras["default_factory"]`, or the class of the member's type in
+`lambda :Cls.parse_obj(...)`; bound as a builtin / by class order, hypotheses (i)/(iii) above). -/
+theorem pydantic_field_names_bound (s : Pyd) :
+    ∀ n ∈ Pyd.memberNames s, n ∈ Pyd.imports s ∨ n ∈ (Pyd.factory s).names :=
+  Dcg.Proofs.FieldStr.pyd_bound s
+
+open Dcg.Model.FieldStr Dcg.Proofs.FieldStr in
+/-- non-vacuity: `Field(default_factory=lambda :Pet.parse_obj({'a': 1}), alias='x')` reads `Field`
+and `Pet`; `Field` is imported, `Pet` is the factory's class. With `use_annotated` the same state
+writes `Annotated[…, Field(alias='x')]`: the factory is not written at all. -/
+example :
+    let s : Pyd := { required := false, nullable := false, useAnnotated := false, useDefaultKwarg := false, otherArgs := true, keyBeforeFactory := true, defaultNotNone := true, extrasFactory := none, modelFactory := some ['P', 'e', 't'] }
+    Pyd.str s = ⟨.call .factory, [Dcg.Model.FieldText.nField, ['P', 'e', 't']]⟩ ∧
+    Pyd.imports s = [Dcg.Model.FieldText.nField] ∧
+    Pyd.memberNames { s with useAnnotated := true } = [Dcg.Model.FieldText.nAnnotated, Dcg.Model.FieldText.nField] ∧
+    Pyd.imports { s with useAnnotated := true } = [Dcg.Model.FieldText.nField, Dcg.Model.FieldText.nAnnotated] := by
+  decide
+
+open Dcg.Model.FieldStr Dcg.Proofs.FieldStr in
+/-- dataclasses, EVERY field state: `field(...)` is written exactly when `dataclasses.field` is among
+the member's imports (the coupling the seeded regression C02-a breaks); the only other name the text
+reads is a `default_factory` out of `extras`. A bare `repr(default)` reads no name. -/
+theorem dataclass_field_names_bound (s : Dc) :
+    ∀ n ∈ Dc.memberNames s, n ∈ Dc.imports s ∨ n ∈ (Dc.factory s).toList :=
+  Dcg.Proofs.FieldStr.dc_bound s
+
+open Dcg.Model.FieldStr Dcg.Proofs.FieldStr in
+/-- non-vacuity: a list default becomes `field(default_factory=lambda :['a'])`: `field` is read and imported -/
+example :
+    let s : Dc := { required := false, defaultSet := true, defaultListOrDict := true, extrasFactory := none, otherKeys := false }
+    Dc.memberNames s = [nfield] ∧ Dc.imports s = [nfield] ∧
+    Dc.memberNames { s with defaultListOrDict := false } = [] ∧ Dc.imports { s with required := true } = [] := by
+  decide
+
+open Dcg.Model.FieldStr Dcg.Proofs.FieldStr in
+/-- FULL STATEMENT for msgspec (kept visible; FALSE of the code, `msgspec_annotated_optional_unbound`) -/
+def MsgspecFieldNamesBound : Prop :=
+  ∀ s : Ms, ∀ n ∈ Ms.memberNames s, n ∈ Ms.imports s ∨ n ∈ (Ms.factory s).names ∨ n = nList
+
+open Dcg.Model.FieldStr Dcg.Proofs.FieldStr in
+/-- msgspec, PARTIAL: under `msOptionalOK` (decidable: NOT (`.annotated` is written, the member is not
+required, not a class variable, typing spelling, and `nullable == False`) — `.annotated` wraps in
+`Optional[…]` by requiredness, `.imports` asks for `Optional` by nullability) every name the member's `field(...)` and its
+`Annotated[…, Meta(…)]` / `Optional[…]` / `ClassVar[…]` wrapper read — `field`, `convert`, `Meta`,
+`Annotated`, `Optional`, `ClassVar` — is among the imports of the same field (`import_extender` and
+the base class), or is the factory (the text out of `extras`, the struct class in
+`lambda: convert(…, type=Cls)`), or the builtin `list`. -/
+theorem msgspec_field_names_bound_partial (s : Ms) (h : msOptionalOK s = true) :
+    ∀ n ∈ Ms.memberNames s, n ∈ Ms.imports s ∨ n ∈ (Ms.factory s).names ∨ n = nList :=
+  Dcg.Proofs.FieldStr.ms_bound s h
+
+open Dcg.Model.FieldStr Dcg.Proofs.FieldStr in
+/-- non-vacuity: `v: Optional[Annotated[List[Pet], Meta(description='d')]] = field(default_factory=lambda: convert([…], type=list[Pet]), name='x')`,
+nullable by default: the hypothesis holds, six library names are read and imported -/
+example :
+    let s : Ms := { required := false, hasAlias := true, defaultSet := true, defaultTruthy := true, extrasFactory := none, structFactory := some ['P', 'e', 't'], structList := true, useAnnotated := true, hasMeta := true, classVar := false, nullable := none, typeHasNull := false, unionOp := false }
+    msOptionalOK s = true ∧
+    Ms.memberNames s = [Dcg.Model.FieldText.nAnnotated, nMeta, nOptional, nfield, nConvert, nList, ['P', 'e', 't']] ∧
+    Ms.imports s = [nOptional, Dcg.Model.FieldText.nAnnotated, nfield, nConvert, nMeta] := by
+  decide
+
+open Dcg.Model.FieldStr Dcg.Proofs.FieldStr in
+/-- REFUTATION (known finding C02-F11, replayed on the real code by its witness document): a member that
+is not required, has a `Meta(...)` argument and is declared not nullable (`--strict-nullable` with a
+default) is written `Optional[Annotated[…]]`, and `Optional` is not among its imports. -/
+theorem msgspec_annotated_optional_unbound :
+    let s : Ms := { required := false, hasAlias := false, defaultSet := true, defaultTruthy := true, extrasFactory := none, structFactory := none, structList := false, useAnnotated := true, hasMeta := true, classVar := false, nullable := some false, typeHasNull := false, unionOp := false }
+    nOptional ∈ Ms.memberNames s ∧ nOptional ∉ Ms.imports s ∧ nOptional ∉ (Ms.factory s).names ∧ msOptionalOK s = false := by
+  decide
+
+open Dcg.Model.FieldStr Dcg.Proofs.FieldStr in
+theorem msgspec_field_names_bound_full_false : ¬ MsgspecFieldNamesBound := by
+  intro h
+  have hw := msgspec_annotated_optional_unbound
+  rcases h _ nOptional hw.1 with h1 | h1 | h1
+  · exact hw.2.1 h1
+  · exact hw.2.2.1 h1
+  · exact absurd h1 (by decide)
+
+open Dcg.Model.FieldStr Dcg.Proofs.FieldStr in
+/-- TypedDict: `NotRequired[…]` is written exactly when `typing.NotRequired` is among the imports -/
+theorem typeddict_field_names_bound (s : Td) : ∀ n ∈ Td.memberNames s, n ∈ Td.imports s := by
+  intro n hn; exact hn
 
 /-!
 What remains outside the theorems (tested end-to-end on every run): that the real import block
